@@ -357,6 +357,11 @@ func TestC19(t *testing.T) {
 		}
 		if withH3 {
 			tr.HTTP3Transport = h3
+			if rapid.Bool().Draw(t, "tls_config_lists_h3") {
+				// the one tls.Config serves the QUIC dialer too, so an HTTP/3 user lists h3 in it
+				tr.TLSConfig.NextProtos = []string{"h3", "h2", "http/1.1"}
+				cl = append(cl, "tls_config_lists_h3")
+			}
 		}
 		dialerResolverSet := rapid.Bool().Draw(t, "dialer_resolver_set")
 		if dialerResolverSet {
@@ -472,6 +477,13 @@ func TestC19(t *testing.T) {
 				if !useH3 && len(expTargets) > 1 && rapid.IntRange(0, 2).Draw(t, "mark_down") == 0 {
 					down[expTargets[0]] = true
 					cl = append(cl, "target_down")
+				} else if !useH3 && len(expTargets) >= 1 && rapid.IntRange(0, 5).Draw(t, "mark_all_down") == 0 {
+					// every compatible target is down: the request fails after exactly those
+					// targets were tried - no other record's target gets a TCP connection attempt
+					for _, a := range expTargets {
+						down[a] = true
+					}
+					cl = append(cl, "all_targets_down")
 				}
 				reqID := fmt.Sprintf("req%d", i)
 				req, _ := http.NewRequest("GET", o.url(), nil)
@@ -588,6 +600,15 @@ func TestC19(t *testing.T) {
 						cl = append(cl, "conn_reused")
 						results = append(results, reqID+":ok-pooled")
 					} else {
+						var gotSeq []string
+						for _, d := range myDials {
+							if !d.Late && !strings.Contains(d.Err, "canceled") {
+								gotSeq = append(gotSeq, d.Addr)
+							}
+						}
+						if fmt.Sprint(gotSeq) != fmt.Sprint(expTargets) {
+							ev.Violation(t, "C19", rp, "every compatible target is down: targets dialed %v, the records compatible with h2/http1.1 give %v", gotSeq, expTargets)
+						}
 						results = append(results, reqID+":unreachable")
 					}
 				default:
